@@ -239,6 +239,25 @@ func TestProp(t *testing.T) { checker.Prop(t, genCase) }
 // TestGrid: a deterministic table: every kind x {unversioned, versioned ”/'1.2.3'/16 bytes} x body lengths around the boundaries x every reader mode.
 func TestGrid(t *testing.T) {
 	vk.SetPhase("grid")
+	// bodies around every power of two (alone and with the 32-byte header) and one frame of several MiB
+	for k := uint(5); k <= 13; k++ {
+		for _, n := range []int{1<<k - 33, 1<<k - 32, 1<<k - 31, 1<<k - 1, 1 << k, 1<<k + 1} {
+			if n < 0 {
+				continue
+			}
+			b := make([]byte, n)
+			for i := range b {
+				b[i] = byte(vk.Mix(uint64(n)*3+uint64(i/8)) >> (8 * uint(i%8)))
+			}
+			small := Frame{Kind: "bytes", Payload: []byte("next")}
+			checker.Run(t, Case{Frames: []Frame{{Kind: "raw", Payload: b}, small, {Kind: "bytes", Payload: b}, small}, Sink: "buffer", Reader: "sizes", Sizes: []int{1000, 7, 4096}})
+		}
+	}
+	big := make([]byte, 2<<20+4096+5)
+	for i := range big {
+		big[i] = byte(vk.Mix(uint64(i/8)+99) >> (8 * uint(i%8)))
+	}
+	checker.Run(t, Case{Frames: []Frame{{Kind: "raw", Payload: big}, {Kind: "bytes", Payload: []byte("after the big one")}, {Kind: "bytes", Payload: big[:1<<20+1]}}, Sink: "attowriter", Reader: "sizes", Sizes: []int{65536, 1 << 20, 4095}})
 	vers := [][]byte{nil, {}, []byte("1.2.3"), []byte("0123456789abcdef"), []byte("a\x00b")}
 	for _, kind := range pbm.Kinds {
 		for vi, ver := range vers {
